@@ -407,7 +407,11 @@ class Type1Tag(Tag):
         """
         log.debug("read all static memory")
         cmd = b"\x00\x00\x00" + self.uid
-        return self.transceive(cmd)
+        rsp = self.transceive(cmd)
+        if len(rsp) < 2:
+            # not even the header rom bytes
+            raise Type1TagCommandError(RESPONSE_ERROR)
+        return rsp
 
     def read_byte(self, addr):
         """Read a single byte from static memory area (blocks 0-14).
